@@ -1,6 +1,6 @@
 (* C10 property theorems: statements only, each closed by [exact]. *)
 From Boltons Require Import Lib.Prelude Spec.C10_Spec Model.C10_Model
-  Proofs.C10_Barrel Proofs.C10_Queue Proofs.C10_SpecFacts Proofs.C10_Big.
+  Proofs.C10_Barrel Proofs.C10_Queue Proofs.C10_SpecFacts Proofs.C10_Big Proofs.C10_Heapq.
 
 (* ---- the reference itself says what the property text says --------------------- *)
 (* pop/peek serve a live task of highest priority; everything inserted before it
@@ -26,6 +26,37 @@ Theorem C10_heap_refines : forall ops,
 Proof. exact heap_refines_spec. Qed.
 Print Assumptions C10_heap_refines.
 
+(* the same with heapq as written: heappush/heappop with _siftdown/_siftup on the list *)
+Theorem C10_heapq_refines : forall ops,
+  q_run heapq_backend (q_init heapq_backend) ops = spec_run [] ops.
+Proof. exact heapq_refines_spec. Qed.
+Print Assumptions C10_heapq_refines.
+
+(* heapq keeps the heap order and the content; the root is a least element *)
+Theorem C10_heappush_ok : forall (h : list entry) (x : entry),
+  heap_ok entry_ltb h ->
+  exists h', hq_push entry_ltb h x = Ok h' /\ heap_ok entry_ltb h' /\ Permutation.Permutation h' (x :: h).
+Proof. exact (hq_push_ok entry_ltb entry_ltb_asym entry_ge_trans). Qed.
+Print Assumptions C10_heappush_ok.
+
+Theorem C10_heappop_ok : forall (h : list entry),
+  heap_ok entry_ltb h -> h <> [] ->
+  exists r h2, nth_error h 0 = Some r /\ hq_pop entry_ltb h = Ok (r, h2) /\ heap_ok entry_ltb h2 /\
+               Permutation.Permutation h (r :: h2) /\ (forall x, In x h -> entry_ltb x r = false).
+Proof. exact (hq_pop_ok entry_ltb entry_ltb_irrefl entry_ltb_asym entry_ge_trans). Qed.
+Print Assumptions C10_heappop_ok.
+
+Example C10_heapq_example :
+  let h : list entry := [(0%Z, 1, Some 1); (3%Z, 2, Some 2); (0%Z, 5, None); (4%Z, 3, Some 3); (3%Z, 4, Some 4)] in
+  heap_ok entry_ltb h /\ h <> [] /\
+  hq_pop entry_ltb h = Ok ((0%Z, 1, Some 1), [(0%Z, 5, None); (3%Z, 2, Some 2); (3%Z, 4, Some 4); (4%Z, 3, Some 3)]).
+Proof.
+  split; [|split; [discriminate|vm_compute; reflexivity]].
+  intros i Hi y z Ey Ez.
+  do 5 (destruct i as [|i]; [try lia; vm_compute in Ey, Ez; inversion Ey; inversion Ez; reflexivity|]).
+  destruct i; discriminate.
+Qed.
+
 Theorem C10_sorted_refines : forall (limit : nat -> nat) ops,
   q_run (sorted_backend limit) (q_init (sorted_backend limit)) ops = spec_run [] ops.
 Proof. exact sorted_refines_spec. Qed.
@@ -38,6 +69,12 @@ Theorem C10_equiv : forall (limit : nat -> nat) ops,
   q_run (sorted_backend limit) (q_init (sorted_backend limit)) ops.
 Proof. exact heap_sorted_equiv. Qed.
 Print Assumptions C10_equiv.
+
+Theorem C10_equiv_heapq : forall (limit : nat -> nat) ops,
+  q_run heapq_backend (q_init heapq_backend) ops =
+  q_run (sorted_backend limit) (q_init (sorted_backend limit)) ops.
+Proof. exact heapq_sorted_equiv. Qed.
+Print Assumptions C10_equiv_heapq.
 
 (* a history that splits the sorted back end into several sub-lists (limit 2),
    re-adds, removes, and breaks ties *)
